@@ -185,6 +185,11 @@ pub fn check(case: &Case, st: &mut Stats) -> Result<(), Violation> {
     let px = case.pixels();
     let sig = format!("C06:primaries:{}:{}", cp_name(case.p), if case.to_709 { "to709" } else { "from709" });
     let fail = |msg: String, p: &[[f32; 3]], w: usize, h: usize| Violation { signature: sig.clone(), message: msg, case: case.json_with(p, w, h) };
+    if let Some(k) = prior_perm_kind(px.iter().flat_map(|p| p.iter().map(|c| c.to_bits())), px.len()) {
+        let q = permuted(&px, k, case.w);
+        let _ = catch(|| lib_convert(case.p, case.to_709, &q, case.w, case.h).map(|_| ()));
+        st.class("preceded_by_a_permutation_of_the_same_image", 1);
+    }
     let got = match catch(|| lib_convert(case.p, case.to_709, &px, case.w, case.h)) {
         Err(p) => return Err(fail(format!("panic: {p}"), &px, case.w, case.h)),
         Ok(Err(e)) => return Err(fail(e, &px, case.w, case.h)),
